@@ -120,6 +120,10 @@ class ColumnBackend(ArraySchemaBackend):
                     )
                 except SchemaErrors as exc:
                     error_handler.collect_errors(exc.schema_errors)
+                except SchemaError:
+                    # the column validation below coerces again and
+                    # reports the failure (eagerly or lazily)
+                    pass
 
             if is_table(check_obj[column_name]):
                 for i in range(check_obj[column_name].shape[1]):
